@@ -742,6 +742,9 @@ func (pe *PolicyEngine) AddPodByNameAndNamespace(name, ns string) (Peer, error) 
 		Name:      name,
 		Namespace: ns,
 		FakePod:   true,
+		// policies of the given namespace might select the fake pod too; its exposure data should not be nil then
+		IngressExposureData: k8s.PodExposureInfo{ClusterWideConnection: common.MakeConnectionSet(false)},
+		EgressExposureData:  k8s.PodExposureInfo{ClusterWideConnection: common.MakeConnectionSet(false)},
 	}
 	if err := pe.resolveSingleMissingNamespace(ns); err != nil {
 		return nil, err
